@@ -518,6 +518,142 @@ def run_store_with_past(ctx, rng):
                 "absent": sorted(x for x in file_oids + [o["oid"]] if x not in held), "foreign_bytes": sorted(x for x in file_oids if x in held and held[x] != x)})
 
 
+WS_STATES = ("absent", "empty", "unrelated_files")
+
+
+def run_tracked_workspace(ctx, rng):
+    """The index-level checkout the way an application that tracks a workspace does it.  The index describes several
+    outputs (directories, now and then a single file; at top level or below common parents; sharing contents) by their
+    object ids only; the data was staged and transferred into a store before.  Where the data may come from is what the
+    index's storage map says: the object store, as `cache` or as `remote` (apply(storage=...)), and - the new dimension -
+    the workspace that is being populated, as `data` FileStorage: registered by the application up front (rooted at the
+    workspace or one storage per output), or registered by apply() itself (update_meta=True, the default) after the first
+    call.  The outputs are checked out in one call or in two calls on the same index (the second batch is added to the
+    index after the first apply()).  The workspace is fresh as far as the outputs go: it does not exist, is empty, or
+    holds unrelated files only.  None of this is the property's business: after every call each output that the index
+    held at that call must be there with exactly its relative paths and bytes, and nothing may be reported as failed."""
+    from dvc_data.hashfile.build import build
+    from dvc_data.hashfile.meta import Meta
+    from dvc_data.hashfile.state import State
+    from dvc_data.hashfile.transfer import transfer
+    from dvc_data.index import DataIndex, DataIndexEntry, FileStorage
+    from dvc_data.index.checkout import apply, compare
+    from dvc_data.index.index import ObjectStorage
+
+    from .util import write_file
+
+    fs = stores.fs_local()
+    root = ctx.mkdtemp()
+    local = rng.random() < 0.5
+    link = rng.choice(["copy", "copy", "hardlink", "symlink"])
+    use_state = rng.random() < 0.4
+    st = State(root_dir=root, tmp_dir=os.path.join(root, "tmp")) if use_state else None
+    cfg = {"state": st} if st else {}
+    odb = stores.make_odb(os.path.join(root, "odb"), local=local, type=[link], **cfg)
+    role = rng.choice(["cache", "cache", "remote"])
+    data_storage = rng.choice(["none", "workspace_root", "per_output"])
+    update_meta = rng.random() < 0.6
+    ws_state = rng.choice(WS_STATES)
+    nout = rng.choice([1, 2, 2, 3])
+    two_calls = nout >= 2 and rng.random() < 0.6
+
+    # ---- the outputs: where they live in the workspace (no key is a prefix of another) and what they hold
+    shared = [bytes(rng.choice(b"trackedTRACKED \n") for _ in range(rng.randrange(1, 30))) for _ in range(2)]
+    parents = [(), (), ("nest",), ("nest", "deeper"), ("other dir",)]
+    outs = []
+    for i in range(nout):
+        key = rng.choice(parents) + ("out%d" % i,)
+        src = os.path.join(root, "src%d" % i)
+        if rng.random() < 0.2:
+            data = {(): rng.choice(shared + [b"", b"single file\r\n"])}
+            write_file(src, data[()])
+        else:
+            data = gen.rand_tree(rng, max_files=rng.choice([1, 2, 4]), max_depth=rng.choice([0, 1, 3]))
+            if rng.random() < 0.5:
+                data[rng.choice(sorted(data))] = rng.choice(shared)
+            gen.materialize(src, data, rng)
+        outs.append({"key": key, "src": src, "isdir": () not in data, "want": {"/".join(k): v for k, v in data.items()}})
+    first = list(range(nout))
+    rng.shuffle(first)
+    batches = [first[: rng.randrange(1, nout)], []] if two_calls else [first]
+    if two_calls:
+        batches[1] = [i for i in first if i not in batches[0]]
+    ws = os.path.join(root, "workspace")
+    unrelated = {}
+    if ws_state == "empty":
+        os.makedirs(ws)
+    elif ws_state == "unrelated_files":
+        unrelated = {"README": b"not tracked\n", "nest/notes.txt": b"nor is this\n"}
+        for rel, b in unrelated.items():
+            write_file(os.path.join(ws, *rel.split("/")), b)
+    case = {"scenario": "tracked-workspace", "local": local, "link": link, "state": use_state, "store_role": role, "data_storage": data_storage,
+            "update_meta": update_meta, "workspace": ws_state, "calls": [[list(outs[i]["key"]) for i in b] for b in batches],
+            "outputs": [{"key": list(o["key"]), "dir": o["isdir"], "data": _short(o["want"])} for o in outs]}
+
+    def body():
+        for o in outs:
+            staging, _, obj = build(odb, o["src"], fs, "md5")
+            r = transfer(staging, odb, {obj.hash_info}, shallow=False)
+            assert not r.failed
+            o["hash_info"] = obj.hash_info
+        idx = DataIndex()
+        getattr(idx.storage_map, "add_" + role)(ObjectStorage((), odb))
+        if data_storage == "workspace_root":
+            idx.storage_map.add_data(FileStorage((), fs, ws))
+        seen = []
+        res = []
+        for batch in batches:
+            for i in batch:
+                o = outs[i]
+                idx.add(DataIndexEntry(key=o["key"], meta=Meta(isdir=o["isdir"]), hash_info=o["hash_info"]))
+                if data_storage == "per_output":
+                    idx.storage_map.add_data(FileStorage(o["key"], fs, os.path.join(ws, *o["key"])))
+            seen += batch
+            errs = []
+            # was the workspace known to the index as a place to load directories from when this call started?
+            data_known = all(idx.storage_map[outs[i]["key"]].data is not None for i in batch)
+            k, v = safe_call(lambda: apply(compare(None, idx), ws, fs, update_meta=update_meta, storage=role,
+                                           onerror=lambda *a: errs.append("%s: %s" % (os.path.relpath(a[1], ws), a[2])), state=st))
+            res.append({"raised": v if k != "ok" else None, "errors": errs, "data_known": data_known,
+                        "got": {i: _snapshot(os.path.join(ws, *outs[i]["key"])) for i in seen}})
+        return res, {i: _snapshot(outs[i]["src"]) for i in range(nout)}, stores.intact_violations(odb.path)
+
+    try:
+        kind, val = safe_call(body)
+    finally:
+        if st:
+            st.close()
+    ctx.count("tracked_workspace")
+    if kind != "ok":
+        ctx.case(case)
+        ctx.oracle(False, case, {"why": "preparing / driving the tracked-workspace checkout raised", "impl": val})
+        return
+    res, src_now, damaged = val
+    # non-trivial: a directory that was not in the workspace had to be loaded while the index knew the workspace as `data`
+    nontrivial = any(r["data_known"] and any(outs[i]["isdir"] for i in b) for r, b in zip(res, batches))
+    ctx.case(case, nontrivial=nontrivial)
+    ctx.count("tracked: data_storage=%s update_meta=%s calls=%d store_role=%s" % (data_storage, update_meta, len(batches), role))
+    ctx.count("tracked: workspace=%s" % ws_state)
+    ctx.count("tracked: workspace known as data when a directory had to be loaded=%s" % nontrivial)
+    if any(src_now[i] != outs[i]["want"] for i in range(nout)) or damaged:  # harness self-check: the premises of the oracle
+        ctx.oracle(False, case, {"why": "HARNESS: a source changed or the store is damaged after the checkouts", "damaged": damaged})
+        return
+    seen = []
+    for n, (r, batch) in enumerate(zip(res, batches)):
+        seen += batch
+        who = {"call": n + 1, "of": len(batches), "workspace_known_as_data": r["data_known"]}
+        ctx.oracle(r["raised"] is None and not r["errors"], case,
+                   {"why": "index-level checkout into a tracked workspace raised or reported failures although the store holds everything", **who,
+                    "raised": r["raised"], "errors": r["errors"][:4]})
+        for i in seen:
+            want, got = outs[i]["want"], r["got"][i]
+            ctx.oracle(got == want, case,
+                       {"why": "index-level round trip into a tracked workspace (data FileStorage + object store) does not reproduce the data", **who,
+                        "output": list(outs[i]["key"]), "added_in_call": 1 if i in batches[0] else 2,
+                        "missing": sorted(set(want) - set(got)), "extra": sorted(set(got) - set(want)),
+                        "different": sorted(x for x in want if x in got and got[x] != want[x])})
+
+
 def run(ctx):
     ctx.rule = (
         "directory trees of 1-9 files at depth 0-4 with odd names (non-ASCII, spaces, quotes, backslash, newline, leading dots, "
@@ -534,7 +670,14 @@ def run(ctx):
         "only through a sibling directory sharing contents, or never - and that has since lost 1..n file objects to bit rot + odb.check(), "
         "lost them to odb.delete(), lost the directory object, or nothing; staged again or from the first staging, transfer(shallow=False), "
         "object checkout and index compare/apply into fresh locations must reproduce the data, the listing reloads as built, count/size match, "
-        "and the store ends up holding every object of the directory under its own name; non-trivial there = the store was neither empty nor complete"
+        "and the store ends up holding every object of the directory under its own name; non-trivial there = the store was neither empty nor complete. "
+        "Plus tracked workspaces (histogram key tracked_workspace): 1-3 outputs (directories of 1-4 files, now and then a single file, at top level or "
+        "below common parents, sharing contents) staged and transferred into one store, then checked out by compare/apply from an index that knows "
+        "them by object id only and whose storage map names the store as cache or as remote (apply(storage=..)) and the workspace being populated as "
+        "`data` FileStorage - not at all, rooted at the workspace, or one per output - with update_meta on (apply registers the workspace as data "
+        "itself) or off; in one call or in two calls on the same index (the second batch of outputs added after the first apply); the workspace "
+        "absent, empty or holding unrelated files; after every call every output the index held must be there with exactly its paths and bytes and "
+        "nothing reported failed; non-trivial there = a directory not yet in the workspace had to be loaded while the index knew the workspace as data"
     )
     ctx.assumptions = ["paths are absolute and normalised (the slicing in _build_tree relies on it)", "empty directories are not tracked"]
     for _ in range(ctx.n(110, 1200)):
@@ -543,6 +686,8 @@ def run(ctx):
         run_interleaved(ctx, ctx.rng)
     for _ in range(ctx.n(60, 600)):
         run_store_with_past(ctx, ctx.rng)
+    for _ in range(ctx.n(40, 500)):
+        run_tracked_workspace(ctx, ctx.rng)
 
 
 def search(ctx):
@@ -552,6 +697,8 @@ def search(ctx):
         run_interleaved(ctx, ctx.rng)
     for _ in range(400):
         run_store_with_past(ctx, ctx.rng)
+    for _ in range(400):
+        run_tracked_workspace(ctx, ctx.rng)
 
 
 def replay(ctx, payload):
